@@ -52,6 +52,22 @@ func verifH_C04_base() {
 		verifAssert(verifSeenAlgs[0] == wa, "hash-of-param")
 		exp, _ := verifStub_derive(key, verifSeenCounters[0], wd, wa)
 		verifAssert(ok == verifStrEq(code, exp), "skew-0-accept-iff-code-of-base-step")
+	} else if wp <= 1<<20 {
+		// native twin (replay of a model): the real codes of the neighbouring steps are accepted
+		// exactly when they equal the code of the base step
+		own, gerr := GenerateTOTP(secret, t, &Param{Digits: 6, Algorithm: SHA1, Period: uint(wp)})
+		for k := int64(-12); gerr == nil && k <= 12; k++ {
+			tt := t.Add(time.Duration(k*int64(wp)) * time.Second)
+			if tt.Unix() < 0 {
+				continue
+			}
+			c, cerr := GenerateTOTP(secret, tt, &Param{Digits: 6, Algorithm: SHA1, Period: uint(wp)})
+			if cerr != nil {
+				continue
+			}
+			ok2, _ := ValidateTOTP(secret, c, t, p)
+			verifAssert(ok2 == (c == own), "skew-0-accept-iff-code-of-base-step")
+		}
 	}
 }
 
